@@ -336,14 +336,22 @@ fn cmp_read() {
         // start a little before the solver's position so that the edge is crossed by plain reads
         let from = c.saturating_sub(3);
         rd.seek(SeekFrom::Start(from)).unwrap();
-        let blen = (v_u64("blen", 4) as usize).clamp(1, 8);
+        // blen 0: a read with an EMPTY buffer before every 3-byte read (Ok(0), nothing changes)
+        let empty_reads = v_u64("blen", 4) == 0;
+        let blen = if empty_reads { 3 } else { (v_u64("blen", 4) as usize).clamp(1, 8) };
         let mut out = Vec::new();
         let mut buf = [0u8; 8];
         while out.len() < 24 {
+            if empty_reads {
+                match rd.read(&mut []) {
+                    Ok(0) => {}
+                    other => return Some(format!("a read with an empty buffer at {} returned {other:?}", from + out.len() as u64)),
+                }
+            }
             match rd.read(&mut buf[..blen]) {
                 Ok(0) => break,
                 Ok(n) => out.extend_from_slice(&buf[..n]),
-                Err(e) => return Some(format!("read at {} failed: {e}", from + out.len() as u64)),
+                Err(e) => return Some(format!("read at {}{} failed: {e}", from + out.len() as u64, if empty_reads { " (after a read with an empty buffer)" } else { "" })),
             }
             let pos = rd.stream_position().unwrap();
             if pos != from + out.len() as u64 {
